@@ -18,6 +18,9 @@ from typing import Dict, List, Optional
 
 VERIF = os.path.dirname(os.path.dirname(os.path.abspath(__file__)))
 REPO = os.environ.get("VERIF_REPO", "/repo")
+# per-job time limits in the plans were chosen on an idle 16-core machine; they are multiplied by this factor so that a
+# slower or busier machine does not turn a proof into INCONCLUSIVE
+TIMEOUT_FACTOR = int(os.environ.get("VERIF_TIMEOUT_FACTOR", "3") or 3)
 MEM_KB = int(os.environ.get("VERIF_MEM_KB", str(10 * 1024 * 1024)))
 NPROC = int(os.environ.get("VERIF_JOBS", str(os.cpu_count() or 4)))
 
@@ -227,7 +230,7 @@ def _run_job(job, prop, hdir, wd, res):
             a += " --apply-loop-contracts"
         if job.loops:
             a += f" --loop-contracts-file {q(os.path.join(hdir, job.loops))}"
-        ok, out = gi(a, timeout=job.timeout)
+        ok, out = gi(a, timeout=job.timeout * TIMEOUT_FACTOR)
         if not ok:
             return fail("dfcc instrumentation failed")
     elif job.mode == "legacy":
@@ -240,7 +243,7 @@ def _run_job(job, prop, hdir, wd, res):
             a += f" --replace-call-with-contract {f}"
         if job.enforce:
             a += f" --enforce-contract {job.enforce}"
-        ok, out = gi(a, timeout=job.timeout)
+        ok, out = gi(a, timeout=job.timeout * TIMEOUT_FACTOR)
         if not ok:
             return fail("legacy contract instrumentation failed")
     # 4. cbmc
@@ -260,11 +263,11 @@ def _run_job(job, prop, hdir, wd, res):
     flags += job.cbmc_flags
     cmd = f"cbmc {cur} " + " ".join(flags)
     res.cmds.append(cmd)
-    rc, out = sh(cmd, cwd=wd, timeout=job.timeout)
+    rc, out = sh(cmd, cwd=wd, timeout=job.timeout * TIMEOUT_FACTOR)
     open(os.path.join(wd, "cbmc.json"), "w").write(out)
     if rc == 124:
-        log.append(f"$ {cmd}\n[TIMEOUT after {job.timeout}s]")
-        return fail(f"cbmc timeout after {job.timeout}s")
+        log.append(f"$ {cmd}\n[TIMEOUT after {job.timeout * TIMEOUT_FACTOR}s]")
+        return fail(f"cbmc timeout after {job.timeout * TIMEOUT_FACTOR}s")
     data = parse_cbmc_json(out)
     if data is None:
         log.append(f"$ {cmd}\n{out[-4000:]}")
